@@ -186,6 +186,7 @@ type multiStreamListener struct {
 	ln          StreamListener
 	count       uint32
 	acceptCh    chan acceptResponse
+	doneCh      chan struct{}
 	onCloseFunc OnCloseFunc
 }
 
@@ -212,23 +213,28 @@ func (m *multiStreamListener) Acquire() (StreamListener, error) {
 		}
 		m.ln = &TCPListener{ln}
 		m.acceptCh = make(chan acceptResponse)
-		go func() {
+		m.doneCh = make(chan struct{})
+		// The goroutine only uses the listener and channels it was started with, which
+		// are replaced when the listener is re-acquired after being fully released.
+		go func(ln StreamListener, acceptCh chan<- acceptResponse, doneCh <-chan struct{}) {
 			for {
-				m.mu.Lock()
-				ln := m.ln
-				m.mu.Unlock()
-
-				if ln == nil {
-					return
-				}
 				conn, err := ln.AcceptStream()
 				if errors.Is(err, net.ErrClosed) {
-					close(m.acceptCh)
+					close(acceptCh)
 					return
 				}
-				m.acceptCh <- acceptResponse{conn, err}
+				select {
+				case acceptCh <- acceptResponse{conn, err}:
+				case <-doneCh:
+					// The last virtual listener was closed, so no one is left to
+					// take the connection.
+					if err == nil {
+						conn.Close()
+					}
+					return
+				}
 			}
-		}()
+		}(m.ln, m.acceptCh, m.doneCh)
 	}
 
 	m.count++
@@ -241,6 +247,7 @@ func (m *multiStreamListener) Acquire() (StreamListener, error) {
 			defer m.mu.Unlock()
 			m.count--
 			if m.count == 0 {
+				close(m.doneCh)
 				m.ln.Close()
 				m.ln = nil
 				if m.onCloseFunc != nil {
